@@ -186,6 +186,7 @@ type c17GSel struct {
 	gotCopy    Switch
 	err        error
 	blk        *c17BlockEv
+	panicked   string
 }
 
 // c17Settle lets started goroutines run until nothing observable moves any more. It
@@ -240,6 +241,14 @@ func c17RunGate(c *vt.Ctx, s c17GateScenario) {
 				defer wg.Done()
 				defer sel.done.Store(true)
 				defer progress.Add(1)
+				defer func() {
+					// a selection that panics is the violation ("safe under concurrent use"), not a
+					// dead test process: keep it for the verdict after the join
+					if r := recover(); r != nil {
+						sel.panicked = fmt.Sprintf("%v", r)
+						sel.got, sel.err = nil, fmt.Errorf("panic: %v", r)
+					}
+				}()
 				sel.start = stamp.Add(1)
 				progress.Add(1)
 				sel.got, sel.err = pool.GetOne(ctx, cloud, c17Zone(st.Zone), list.slice, c17Opts(st.Policy, false, false)...)
@@ -294,8 +303,11 @@ func c17RunGate(c *vt.Ctx, s c17GateScenario) {
 	case <-time.After(60 * time.Second):
 		c.Inconclusive("selections did not finish within 60s after all describes were released")
 	}
-	for _, sel := range sels {
+	for k, sel := range sels {
 		sel.cancel()
+		if sel.panicked != "" {
+			c.Fatalf("selection %d (zone=%s policy=%q) panicked while other selections / describes were in flight: %s", k, c17Zone(sel.step.Zone), sel.step.Policy, sel.panicked)
+		}
 	}
 	if diff := list.changed(); diff != "" {
 		c.Fatalf("the shared candidate slice was modified: %s", diff)
